@@ -1,6 +1,7 @@
 package main
 
 import (
+	"strings"
 	"fmt"
 	"math/rand"
 	"unicode"
@@ -49,6 +50,27 @@ func init() {
 			}
 			typed := randPrintable(r, class, 24)
 			sp := Spec{Prompt: "> ", Mode: "emacs", Runs: 1}
+			extra := ""
+			if r.Intn(4) == 0 {
+				// long lines (the buffers of the line and of the display grow past their first sizes), with what the
+				// display treats specially in them: a comment, brackets, quotes
+				for len([]rune(typed)) < 40+r.Intn(160) {
+					typed += []string{" ", " # ", "(", ")", " \"", "#", " "}[r.Intn(7)] + randPrintable(r, class, 24)
+				}
+				extra = "/long"
+			}
+			switch r.Intn(6) {
+			case 0:
+				// features that watch what is typed and must leave it alone: completion as-you-type, suggestions
+				// from the history, matching brackets
+				sp.Completer = stdCompleter
+				extra += "/autocomplete"
+			case 1:
+				sp.History = stdHistory
+				extra += "/autosuggest"
+			case 2:
+				extra += "/blink-paren"
+			}
 			if r.Intn(2) == 0 {
 				sp.Mode = "vi"
 			}
@@ -61,6 +83,15 @@ func init() {
 				}
 			} else {
 				sp.Inputrc = "set convert-meta off\nset input-meta on\nset output-meta on\n"
+			}
+			if strings.Contains(extra, "/autocomplete") {
+				sp.Inputrc += "set autocomplete on\n"
+			}
+			if strings.Contains(extra, "/autosuggest") {
+				sp.Inputrc += "set history-autosuggest on\n"
+			}
+			if strings.Contains(extra, "/blink-paren") {
+				sp.Inputrc += "set blink-matching-paren on\n"
 			}
 			bytes := typed + "\r"
 			var how string
@@ -80,7 +111,7 @@ func init() {
 				sp.Chunks = hexChunks(append(ks, "\r"))
 				how = "runewise"
 			}
-			return Case{Specs: []Spec{sp}, Class: runeClasses[class].name + "/" + sp.Mode + "/" + how,
+			return Case{Specs: []Spec{sp}, Class: runeClasses[class].name + "/" + sp.Mode + "/" + how + extra,
 				Meta: map[string]string{"typed": typed, "class": runeClasses[class].name}}
 		},
 		oracle: func(c Case, trs []Trace) []Finding {
